@@ -76,6 +76,7 @@ def object_events(entry, enc, tid0, rng, quick, run):
         layouts += [(b * 1,), (2, b), (2, 3, b)] if False else [((), b), ((3,), b), ((2, 2), b)]
     if quick:
         layouts = [l for l in layouts if l[1] in (1, 3) or l[0] == ()]
+    layouts += [((1,), 1), ((1,), 2), ((1, 1), 3)]         # batches of one: the leading axes must survive
     for lead, b in layouts:
         nb = 1
         for d in lead:
@@ -97,6 +98,21 @@ def object_events(entry, enc, tid0, rng, quick, run):
             ev["error"] = repr(e)[:120]
         evs.append(ev)
         run.case((entry.name, "layout-enc", lead, b), nontrivial=True)
+        # the same messages as float64 / int64 tensors: an encoder may reject the dtype, but an answer must be the same codewords
+        for dt in (torch.float64, torch.int64):
+            try:
+                Yv = enc(X.to(dt))
+            except Exception:
+                continue
+            run.case((entry.name, "layout-enc", lead, b, str(dt)), nontrivial=True)
+            same = Y is not None and tuple(Yv.shape) == tuple(Y.shape) and torch.equal(Yv.to(torch.float64), Y.to(torch.float64))
+            if not same:
+                tid += 1
+                ev3 = {"ev": "Layout", "tid": tid, "op": "encode", "shape_in": list(X.shape), "shape_out": list(Yv.shape), "ins": [fec.limbs(m, k) for m in ms],
+                       "outs": [], "raised": False, "dtype": str(dt).replace("torch.", "")}
+                if Yv.shape[-1] % n == 0 and Yv.numel() == nb * n and bool(((Yv == 0) | (Yv == 1)).all()):
+                    ev3["outs"] = [fec.limbs(c, n) for c in _blocks(Yv.to(torch.float32), n)]
+                evs.append(ev3)
         if Y is None or not ev["outs"]:
             continue
         for meth in METHODS:
